@@ -537,12 +537,19 @@ def weave_points(body, points, fname):
             raise ExtractionBreak('%s: weave point /%s/ matched %d times (expected %s..%s)' % (fname, p['at'], len(ms), mn, mx))
         for m in reversed(ms):
             w = p.get('where', 'before')
-            if w in ('before', 'after-stmt'):
+            if w == 'before':
                 # statement-level: wrap in braces so an unbraced if/else/loop body stays one statement
                 e = stmt_end(body, m.start())
                 st = body[m.start():e]
-                rep = '{ ' + (p['code'] + ' ' + st if w == 'before' else st + ' ' + p['code']) + ' }'
-                body = body[:m.start()] + rep + body[e:]
+                body = body[:m.start()] + '{ ' + p['code'] + ' ' + st + ' }' + body[e:]
+                continue
+            if w == 'after-stmt':
+                # not wrapped (the statement may be a declaration); it must then be a statement of a block
+                prev = body[:m.start()].rstrip()
+                if not prev or prev[-1] not in ';{}':
+                    raise ExtractionBreak('%s: weave after-stmt /%s/: statement is not directly inside a block' % (fname, p['at']))
+                e = stmt_end(body, m.start())
+                body = body[:e] + ' ' + p['code'] + ' ' + body[e:]
                 continue
             if w == 'raw-before':
                 pos = m.start()
